@@ -369,20 +369,32 @@ def Quantizer.valid (sp : Spec) (en : Enums) (q : Quantizer) : Bool :=
   else if q.type = qProduct then (match q.product with | none => false | some p => p.valid sp)
   else false
 
-def optQuantValid (sp : Spec) (en : Enums) : Option Quantizer → Bool
+/-- `Quantizer.ValidateFor(vectorSize, distanceMetric)`: what the vector store demands of a product
+quantizer (shard/vectorstore `newProductQuantizer`); hamming / jaccard replace the quantizer -/
+def Quantizer.validFor (q : Quantizer) (vectorSize : Int) (metric : Str) : Bool :=
+  if q.type = qProduct then
+    match q.product with
+    | none => true
+    | some p =>
+      if metric = S "hamming" || metric = S "jaccard" then true
+      else if metric = S "euclidean" || metric = S "cosine" || metric = S "dot" then vectorSize % p.numSubVectors == 0
+      else false
+  else true
+
+def optQuantValid (sp : Spec) (en : Enums) (vectorSize : Int) (metric : Str) : Option Quantizer → Bool
   | none => true
-  | some q => q.valid sp en
+  | some q => q.valid sp en && q.validFor vectorSize metric
 
 def FlatP.valid (sp : Spec) (en : Enums) (p : FlatP) : Bool :=
   !sp.flatVecSize.viol p.vectorSize && en.metrics.contains p.metric &&
-  !(p.metric = mHaversine && p.vectorSize != 2) && optQuantValid sp en p.quantizer
+  !(p.metric = mHaversine && p.vectorSize != 2) && optQuantValid sp en p.vectorSize p.metric p.quantizer
 
 def VamanaP.valid (sp : Spec) (en : Enums) (p : VamanaP) : Bool :=
   !sp.vamanaVecSize.viol p.vectorSize && en.metrics.contains p.metric &&
   !(p.metric = mHaversine && p.vectorSize != 2) &&
   !sp.vamanaSearchSize.viol p.searchSize && !sp.vamanaDegree.viol p.degreeBound &&
   !(F64.lt (fbits p.alpha) (fbits sp.alphaLo) || F64.gt (fbits p.alpha) (fbits sp.alphaHi)) &&
-  optQuantValid sp en p.quantizer
+  optQuantValid sp en p.vectorSize p.metric p.quantizer
 
 /-- `IndexSchemaValue.Validate` -/
 def SchemaValue.valid (sp : Spec) (en : Enums) (v : SchemaValue) : Bool :=
